@@ -18,6 +18,21 @@ import (
 // injects.
 var ErrInjected = errors.New("sim: injected transport error")
 
+// ErrInjectedNet is the same fault dressed as transports dress a missed
+// deadline: a net.Error that reports Timeout() and Temporary().
+var ErrInjectedNet error = netTimeoutErr{}
+
+type netTimeoutErr struct{}
+
+func (netTimeoutErr) Error() string   { return "sim: injected transport error (i/o timeout)" }
+func (netTimeoutErr) Timeout() bool   { return true }
+func (netTimeoutErr) Temporary() bool { return true }
+
+// IsInjected reports whether err is (or wraps) one of the injected faults.
+func IsInjected(err error) bool {
+	return errors.Is(err, ErrInjected) || errors.Is(err, ErrInjectedNet)
+}
+
 // Segmentation modes (how many bytes one Read may see).
 const (
 	SegAll      = 0 // everything available
@@ -48,6 +63,8 @@ type Pipe struct {
 
 	SegMode     int
 	EOFWithData bool // last segment arrives together with the end condition
+	FailOnce    bool // only the WFailAt-th write call fails; later ones are accepted (and counted in AfterErr)
+	NetErr      bool // injected failures are net.Errors with Timeout() and Temporary() true
 	ZeroReads   bool // now and then a Read returns (0, nil): nothing happened, legal for an io.Reader (never twice in a row)
 	lastZero    bool
 	zeroSalt    uint64
@@ -108,9 +125,16 @@ func (p *Pipe) limit() int {
 
 func (p *Pipe) endErr() error {
 	if p.CutAt >= 0 && p.CutAt <= len(p.In) && p.CutKind == CutErr {
-		return ErrInjected
+		return p.injected()
 	}
 	return io.EOF
+}
+
+func (p *Pipe) injected() error {
+	if p.NetErr {
+		return ErrInjectedNet
+	}
+	return ErrInjected
 }
 
 // Consumed returns how many input bytes the endpoint has read.
@@ -225,9 +249,17 @@ func (p *Pipe) Write(b []byte) (int, error) {
 	call := len(p.WCalls)
 	if p.wfailed {
 		p.AfterErr += len(b)
+		if p.FailOnce {
+			// The destination works again; what is offered now is still
+			// counted (nothing may be offered after a failure).
+			p.Out = append(p.Out, b...)
+			p.WCalls = append(p.WCalls, len(p.Out))
+			p.R.D.Add(uint64(len(b))<<8 | 0xF3)
+			return len(b), nil
+		}
 		p.WCalls = append(p.WCalls, len(p.Out))
 		p.R.D.Add(uint64(len(b))<<8 | 0xF2)
-		return 0, ErrInjected
+		return 0, p.injected()
 	}
 	if call == p.WFailAt {
 		n := p.WFailN
@@ -239,7 +271,7 @@ func (p *Pipe) Write(b []byte) (int, error) {
 		p.wfailed = true
 		p.R.Fault("write_fail")
 		p.R.D.Add(uint64(n)<<8 | 0xF1)
-		return n, ErrInjected
+		return n, p.injected()
 	}
 	p.Out = append(p.Out, b...)
 	p.WCalls = append(p.WCalls, len(p.Out))
